@@ -372,6 +372,7 @@ def r6_error_path_cannot_panic(ctx):
     """Added after defect F8 (for_client_error_with_status unwrapped the reason phrase of an arbitrary client code) and
     adversary change C13-D (Display for HttpError did the same, and HandlerError::from calls to_string())."""
     from .lib_c10 import panic_sites
+    from .lib_c16 import live_blocks
     R = ctx.rule("C13.R6", "every potential panic site on the way from an error value to its response — HttpError's constructors, into_response, Display/Error impls, "
                  "HandlerError's conversions — is on the reviewed table with the reason it cannot fire for any representable status", floor=6)
     roots = [f for f in ctx.ds.F.values() if f.raw["kind"] in ("Fn", "AssocFn") and re.search(
@@ -380,7 +381,10 @@ def r6_error_path_cannot_panic(ctx):
     seen = {}
     for f in roots:
         for g in [f] + ctx.ds.descendants(f):
+            live = live_blocks(g)
             for kind, what, exp, bb in panic_sites(g):
+                if bb not in live:
+                    continue   # an arm the MIR itself shows dead (variant just assigned) or a debug_assert
                 key = (f.id, what.split("::")[-1])
                 seen.setdefault(key, []).append((g, bb))
     for key, sites in sorted(seen.items()):
